@@ -693,7 +693,8 @@ PROPS = {
         "props_module": "HdModel.Props.C08",
         "theorems": ["Hd.Sniff.C08_detect", "Hd.Sniff.C08_transparent", "Hd.Sniff.C08_run_spec",
                      "Hd.Sniff.C08_pending_irrelevant", "Hd.Sniff.C18_rewind_fifo", "Hd.Sniff.rewindRead_prefix_first",
-                     "Hd.Sniff.detect_gen", "Hd.Sniff.transparent_gen"],
+                     "Hd.Sniff.detect_gen", "Hd.Sniff.transparent_gen", "Hd.Sniff.C08_pending_only_after_inner_pending",
+                     "Hd.Sniff.C08_repolling_reaches_the_verdict", "Hd.Sniff.readVersion_of_poll"],
         "streams": [
             {"name": "sniff", "quick": 5000, "thorough": 200000, "sep": None, "head": 1, "unit": 1,
              "exhaustive": "sniff-exhaustive", "nontrivial": sniff_nontrivial, "distribution": sniff_dist},
